@@ -33,6 +33,14 @@ type probeCase struct {
 	Dribble bool   `json:"client_keeps_writing"`
 }
 
+// minimum observed time from "before dialling" to the server's close, per rig and per
+// empty/non-empty probe: the deadline must not depend on content or length.
+var (
+	c06LatMu  sync.Mutex
+	c06MinLat = map[string]time.Duration{}
+	c06LatN   = map[string]int{}
+)
+
 type c06Rig struct {
 	name  string
 	rig   *TCPRig
@@ -130,6 +138,19 @@ func c06Unauth(c *vk.Ctx, r *rand.Rand, rg *c06Rig, hub *TargetHub, pc probeCase
 		return false
 	}
 	_ = before // (targets are shared between concurrent cases; unexpected dials are audited at the end of the run)
+	if !pc.FIN && !pc.Dribble && obs.kind == "eof" {
+		lat := obs.after
+		c06LatMu.Lock()
+		key := rg.name + "|data"
+		if pc.Len == 0 {
+			key = rg.name + "|empty"
+		}
+		if cur, ok := c06MinLat[key]; !ok || lat < cur {
+			c06MinLat[key] = lat
+		}
+		c06LatN[key]++
+		c06LatMu.Unlock()
+	}
 	if !pc.FIN {
 		if obs.kind == "timeout" {
 			c.Violation("C06/probe-connection-not-closed-within-bound", wit)
@@ -319,7 +340,11 @@ func c06Run(c *vk.Ctx) {
 		}
 		return &c06Rig{name: name, rig: StartTCPRig(keys, TCPRigOpts{Timeout: c06T, Replay: rc, Raw: raw}), keys: keys, cache: cache}
 	}
+	mgrKeys := RandKeys(r, 3, nil, 0)
+	mgrRig := &c06Rig{name: "3keys/nocache/listener-manager", keys: mgrKeys,
+		rig: StartTCPRig(mgrKeys, TCPRigOpts{Timeout: c06T, ViaManager: true, ManagerAddr: fmt.Sprintf("203.0.113.10:%d", freePort())})}
 	rigs := []*c06Rig{
+		mgrRig,
 		mk("1key/nocache", 1, false, false, []string{pick(r, cipherNames)}),
 		mk("12keys/cache", 12, true, false, nil),
 		mk("100keys/cache/raw", 100, true, true, nil),
@@ -415,6 +440,17 @@ func c06Run(c *vk.Ctx) {
 			c.Sample(pc)
 		}
 	}
+	// plenty of silent (zero-length) and immediate probes on every rig, for the deadline comparison
+	for i := 0; i < c.N(36, 120); i++ {
+		rg := rigs[i%len(rigs)]
+		l := 0
+		if i%2 == 1 {
+			l = 60 + r.Intn(100)
+		}
+		pc := probeCase{ID: nextID(c.Batch), Class: "deadline-comparison", Cipher: rg.keys[0].Cipher, Len: l, Rig: rg.name}
+		in := randBytes(r, l)
+		jobs = append(jobs, func(jr *rand.Rand) bool { return c06Unauth(c, jr, rg, hub, pc, in) })
+	}
 	classes := []string{"corrupt-data-chunk-mid-relay", "corrupt-length-mid-relay", "corrupt-address-chunk", "unparseable-address-type", "truncated-address-then-garbage"}
 	for i := 0; i < c.N(20, 100); i++ {
 		rg := rigs[r.Intn(len(rigs))]
@@ -453,6 +489,26 @@ func c06Run(c *vk.Ctx) {
 		return
 	default:
 	}
+	// the same deadline whatever the content or length: the fastest close of a silent connection
+	// and the fastest close of one that sent bytes at once lie close together (minima over many
+	// probes are insensitive to load spikes; both are >= the timeout by construction)
+	c06LatMu.Lock()
+	for _, rg := range rigs {
+		e, d := c06MinLat[rg.name+"|empty"], c06MinLat[rg.name+"|data"]
+		if c06LatN[rg.name+"|empty"] >= 4 && c06LatN[rg.name+"|data"] >= 4 {
+			diff := e - d
+			if diff < 0 {
+				diff = -diff
+			}
+			c.Count("deadline_comparisons", 1)
+			if diff > 450*time.Millisecond {
+				c.Violation("C06/deadline-depends-on-probe-content", map[string]any{"rig": rg.name, "fastest_close_silent_probe": e.String(), "fastest_close_probe_with_data": d.String(), "timeout": c06T.String()})
+				c06LatMu.Unlock()
+				return
+			}
+		}
+	}
+	c06LatMu.Unlock()
 	// No target may have been contacted on behalf of input that never authenticated: the only
 	// addresses with a script are those of the replay/auth-then-invalid cases.
 	if u := hub.UnexpectedList(); len(u) > 0 {
@@ -460,7 +516,7 @@ func c06Run(c *vk.Ctx) {
 		return
 	}
 	// Probes that are being absorbed when their listener shuts down are still held until the deadline.
-	rg := rigs[0]
+	rg := rigs[1]
 	var pw sync.WaitGroup
 	for i := 0; i < 6; i++ {
 		pw.Add(1)
@@ -503,6 +559,7 @@ func init() {
 			c.Require("auth_then_invalid_held_open")
 			c.Require("replay_probes")
 			c.Require("probes_held_across_listener_shutdown")
+			c.Require("deadline_comparisons")
 			c06Run(c)
 		},
 	})
